@@ -176,6 +176,19 @@ func impl(c core.Case) []string {
 					return "bad-op"
 				}
 				return showLayout(regs)
+			case "caps": // real cap() of every private word slice (reflection), compared with the heap model
+				if len(t) != 1 {
+					return "bad-op"
+				}
+				cs := make([]uint, len(regs))
+				for i, r := range regs {
+					_, _, c, ok := r.setHeader()
+					if !ok {
+						return "caps-unavailable"
+					}
+					cs[i] = uint(c)
+				}
+				return "caps " + showUints(cs)
 			case "addn", "removen": // count element operations on start, start+d, …; answer = number of `true`
 				if len(t) != 5 {
 					return "bad-op"
@@ -650,6 +663,9 @@ func genLarge(r *core.Rand, tier string) core.Case {
 	for i := 0; i < nr; i++ {
 		emit("len %d", i)
 	}
+	if layoutOK {
+		emit("caps")
+	}
 	return core.Case{Lines: lines, Tag: "large"}
 }
 
@@ -777,6 +793,9 @@ func gen(r *core.Rand, tier string) core.Case {
 			if layoutOK && r.Chance(25) {
 				emit("layout")
 			}
+			if layoutOK && r.Chance(15) {
+				emit("caps")
+			}
 		case 9:
 			emit("iter %d %d", r.Intn(2), x)
 		case 10:
@@ -831,6 +850,9 @@ func gen(r *core.Rand, tier string) core.Case {
 	}
 	if layoutOK && r.Chance(30) {
 		emit("layout")
+	}
+	if layoutOK && r.Chance(40) {
+		emit("caps")
 	}
 	return core.Case{Lines: lines, Tag: strings.Join(kinds, "+")}
 }
@@ -955,6 +977,9 @@ func check(c core.Case, out []string) *core.Failure {
 		}
 		if o == "bad-op" {
 			continue
+		}
+		if t[0] == "caps" {
+			continue // representation only: compared with the one-memory model by the correspondence check
 		}
 		if t[0] == "layout" {
 			// an observation of the representation (slice headers), not of the set: compared with
@@ -1357,6 +1382,10 @@ func classify1(c core.Case, out []string) []string {
 		}
 		if o == "panic" {
 			ls = append(ls, "panic")
+			continue
+		}
+		if t[0] == "caps" {
+			ls = append(ls, "caps compared")
 			continue
 		}
 		if t[0] == "layout" {
